@@ -266,3 +266,97 @@ Proof.
   destruct (calculate_length path e opt) as [[path' lens]| |] eqn:E; cbn [obind]; try discriminate.
   intros H. inversion H; subst. cbn [c_path c_lengths]. exact (calculate_length_shape path e opt path' lens E).
 Qed.
+
+(* ---------- the adjusting branch, for a positive requested length ---------- *)
+
+Lemma last_valid_pos t L : D.lt D.zero L = true -> last_valid (D.zero :: t) L <> 0.
+Proof.
+  intros HL H. destruct (last_valid_spec (D.zero :: t) L) as [_ H2].
+  specialize (H2 0 D.zero). rewrite H in H2. specialize (H2 (le_n 0) eq_refl). congruence.
+Qed.
+
+Lemma removelast_natural_cons path opt :
+  2 <= length path -> exists t, removelast (natural path opt) = D.zero :: t.
+Proof.
+  intros H. pose proof (natural_length path opt) as Hn. unfold natural in *.
+  destruct (fst (cum_lengths opt path)) as [|x r]; [cbn [length] in Hn; lia|].
+  exists (removelast (x :: r)). reflexivity.
+Qed.
+
+(* T16a (iv): requested length L > 0, not within epsilon of the natural
+   length, not the "duplicate end, longer" exception, at least two vertices:
+   the distance IS L; the path is the natural path cut after vertex k-1 plus
+   one new end point on the ray from vertex k-1 through vertex k; k-1 is the
+   last vertex (before the final one) whose natural cumulative length is
+   below L *)
+Theorem calculate_length_adjusts path L opt path' lens :
+  D.lt D.zero L = true ->
+  near_natural (natural_len path opt) L = false ->
+  (last_two_equal path && D.gt L (natural_len path opt))%bool = false ->
+  2 <= length path ->
+  calculate_length path (Some L) opt = Done (path', lens) ->
+  dist lens = L /\ length lens = length path' /\
+  exists k p',
+    1 <= k < length path /\
+    path' = firstn k path ++ [p'] /\
+    lens = firstn k (natural path opt) ++ [L] /\
+    adjust_end path (natural path opt) k L = Some p' /\
+    (exists v, nth_error (natural path opt) (pred k) = Some v /\ D.lt v L = true) /\
+    (forall j v, k <= j < pred (length path) -> nth_error (natural path opt) j = Some v -> D.lt v L = false).
+Proof.
+  intros HL Hn Hd H2 H.
+  pose proof (calculate_length_cases path (Some L) opt) as C. cbv beta zeta iota in C.
+  rewrite Hn, Hd in C.
+  replace (Nat.leb (length path) 1) with false in C by (symmetry; apply Nat.leb_gt; lia).
+  destruct (removelast_natural_cons path opt H2) as (t & Et).
+  pose proof (last_valid_pos t L HL) as Hpos. rewrite <- Et in Hpos.
+  pose proof (natural_length path opt) as Hnl.
+  assert (Hrl : length (removelast (natural path opt)) = pred (length path)).
+  { rewrite removelast_firstn_len, firstn_length. lia. }
+  destruct (last_valid_spec (removelast (natural path opt)) L) as [S1 S2].
+  destruct (last_valid (removelast (natural path opt)) L) as [|k1] eqn:Ek; [congruence|].
+  destruct C as (p' & Ha & Hk & C). rewrite C in H. apply Done_pair_inj in H. destruct H as [<- <-].
+  split; [apply dist_adjusted|].
+  split; [rewrite !app_length, !firstn_length; cbn [length]; lia|].
+  exists (S k1), p'. split; [lia|]. split; [reflexivity|]. split; [reflexivity|]. split; [exact Ha|].
+  assert (Hnth : forall j, j < pred (length path) ->
+                 nth_error (removelast (natural path opt)) j = nth_error (natural path opt) j).
+  { intros j Hj. rewrite removelast_firstn_len. apply nth_error_firstn. lia. }
+  split.
+  - destruct (S1 k1 eq_refl) as (v & Hv & Hlt). exists v. cbn [pred]. rewrite <- Hnth by lia. split; assumption.
+  - intros j v Hj Hv. apply (S2 j v); [lia|]. rewrite Hnth by lia. exact Hv.
+Qed.
+
+(* unfolding of the pure curve *)
+Lemma curve_L1_unfold lm fuel mode pts e c :
+  curve_L1 lm fuel mode pts e = Done c ->
+  exists path opt, calculate_path_L1 lm fuel mode pts = Done (path, opt) /\
+                   calculate_length path e opt = Done (c_path c, c_lengths c).
+Proof.
+  unfold curve_L1. destruct (calculate_path_L1 lm fuel mode pts) as [[path opt]| |]; cbn [obind]; try discriminate.
+  destruct (calculate_length path e opt) as [[path' lens]| |] eqn:E; cbn [obind]; try discriminate.
+  intros H. inversion H; subst. exists path, opt. split; [reflexivity|exact E].
+Qed.
+
+Lemma dist_last (l : list F64) : dist l = last l D.zero.
+Proof.
+  unfold dist. induction l as [|a [|b t] IH]; try reflexivity.
+  change (last_opt (a :: b :: t)) with (last_opt (b :: t)).
+  change (last (a :: b :: t) D.zero) with (last (b :: t) D.zero). exact IH.
+Qed.
+
+Lemma no_requested_length path opt :
+  calculate_length path None opt = Done (path, natural path opt) /\
+  (2 <= length path -> dist (natural path opt) = natural_len path opt).
+Proof.
+  split; [exact (calculate_length_cases path None opt)|].
+  intros H. rewrite dist_last. apply natural_len_last. exact H.
+Qed.
+
+Lemma near_natural_keeps_natural path L opt :
+  near_natural (natural_len path opt) L = true ->
+  calculate_length path (Some L) opt = Done (path, natural path opt).
+Proof.
+  intros H. pose proof (calculate_length_cases path (Some L) opt) as C.
+  cbv beta zeta iota in C. rewrite H in C. exact C.
+Qed.
